@@ -111,6 +111,10 @@ class AstProfileTransformer(ast.NodeTransformer):
         """
         if not self._profile_imports:
             return self.generic_visit(node)
+        if getattr(node, 'module', None) == '__future__':
+            # Nothing to profile, and no statement may be inserted
+            # between `from __future__ import ...` lines
+            return self.generic_visit(node)
         visited = [self.generic_visit(node)]
         for names in node.names:
             if names.name == '*':
